@@ -33,13 +33,27 @@ UNITS.update({
         region=dict(start=r'NDSize\s+offset\(data\.dataExtent\(\)\.size\(\),\s*0\);\s*offset\[0\]', end=r'views\.push_back\(io\);(?=\s*\}\s*\}\s*else)',
                     params=[('const DataArray &', 'data'), ('const std::vector<ndsize_t> &', 'position_indices'), ('size_t', 'idx'), ('vec_DataView &', 'views')])),
 })
-EXTRA = ('opt_ndsize gh_ge; opt_pair gh_pair; double gh_pair_start, gh_pair_end; RangeMatch gh_pair_match; int gh_pair_calls; int gh_pushed;\nint gh_views; size_t gh_view_count_rank, gh_view_offset_rank; ndsize_t gh_view_count_k, gh_view_offset_k; const ndsize_t *gh_view_extent_dims;\n'
+FD = r'std::vector<DataView>\s+featureData\s*\((?=\s*const\s+MultiTag\s*&\s*tag\s*,\s*std::vector<ndsize_t>\s+position_indices\s*,\s*const\s+Feature)'
+UNITS['mtag_feature_gate'] = dict(file=DA, locator=FD, classes=CL + ['MultiTag', 'Feature'], calls={'taggedData': 'taggedData_mtag_counted'},
+    region=dict(start=r'if\s*\(\s*feature\.linkType\(\)\s*==\s*LinkType::Tagged\s*\)', end=r'(?=if\s*\(\s*feature\.linkType\(\)\s*==\s*LinkType::Indexed\s*\))', ret='std::vector<DataView>', ret_expr='views',
+                params=[('const MultiTag &', 'tag'), ('std::vector<ndsize_t> &', 'position_indices'), ('const Feature &', 'feature'), ('const DataArray &', 'data'), ('RangeMatch', 'match'), ('std::vector<DataView>', 'views')]))
+UNITS['mtag_untagged_whole'] = dict(file=DA, locator=FD, classes=CL,
+    region=dict(start=r'NDSize\s+offset\(data\.dataExtent\(\)\.size\(\),\s*0\);\s*DataView\s+io\s*=\s*DataView\(data,\s*data\.dataExtent\(\)', end=r'views\.push_back\(io\);(?=\s*\}\s*\}\s*return\s+views)',
+                params=[('const DataArray &', 'data'), ('vec_DataView &', 'views')]))
+EXTRA = ('size_t gh_max_idx; int gh_mtagged_calls;\n' + 'opt_ndsize gh_ge; opt_pair gh_pair; double gh_pair_start, gh_pair_end; RangeMatch gh_pair_match; int gh_pair_calls; int gh_pushed;\nint gh_views; size_t gh_view_count_rank, gh_view_offset_rank; ndsize_t gh_view_count_k, gh_view_offset_k; const ndsize_t *gh_view_extent_dims;\n'
          'int gh_tagged_calls, gh_backend_feature_gets, gh_backend_reference_gets; ndsize_t gh_backend_get_index;\n')
 ACC = ['NDSize_size', 'NDSize_at', 'NDSize_bool', 'NDSize_allocate', 'NDSize_fill', 'NDSize_ctor_fill', 'NDSize_copy_ctor']
 JOBS = [dict(name='mtag_assemble_dim', bodies=['NDSize_size', 'NDSize_at', 'mtag_assemble_dim'], enforce=['mtag_assemble_dim'], replace=['positionToIndex_scalar'], extra_c=EXTRA,
              defines=['ND_FULL_ALLOC'], cbmc_flags=UNW, expect_kinds=['postcondition', 'assigns'], timeout=900)]
 for j in rank_cases(dict(name='mtag_indexed_slice', bodies=ACC + ['mtag_indexed_slice'], enforce=['mtag_indexed_slice'], replace=['positionAndExtentInData', 'mk_DataView_3'], extra_c=EXTRA,
                          cbmc_flags=UNW, expect_kinds=['postcondition'], timeout=1500)):
+    r = int(j['name'].split('rank=')[1].rstrip(']'))
+    j['tiers'] = ('quick', 'thorough') if r <= 3 else ('thorough',)
+    JOBS.append(j)
+JOBS.append(dict(name='mtag_feature_gate', bodies=['NDSize_size', 'NDSize_at', 'mtag_feature_gate'], enforce=['mtag_feature_gate'], replace=['std_max_element_idx'], extra_c=EXTRA,
+                 defines=['NIX_TMP_LITERAL'], cbmc_flags=UNW, expect_kinds=['postcondition'], timeout=900))
+for j in rank_cases(dict(name='mtag_untagged_whole', bodies=ACC + ['mtag_untagged_whole'], enforce=['mtag_untagged_whole'], replace=['mk_DataView_3'], extra_c=EXTRA,
+                         cbmc_flags=UNW, expect_kinds=['postcondition'], timeout=900)):
     r = int(j['name'].split('rank=')[1].rstrip(']'))
     j['tiers'] = ('quick', 'thorough') if r <= 3 else ('thorough',)
     JOBS.append(j)
